@@ -11,6 +11,7 @@ import logging
 import pickle
 import re
 import typing
+import uuid
 import weakref
 
 from defusedxml import minidom
@@ -18,10 +19,10 @@ from defusedxml import minidom
 from hippolyzer.lib.base import serialization as se, llsd
 from hippolyzer.lib.base.message.llsd_msg_serializer import LLSDMessageSerializer
 from hippolyzer.lib.base.message.message import Message
-from hippolyzer.lib.base.datatypes import TaggedUnion, UUID, TupleCoord
+from hippolyzer.lib.base.datatypes import TaggedUnion, UUID, TupleCoord, Vector3, Vector4, Quaternion, JankStringyBytes
 from hippolyzer.lib.base.helpers import bytes_escape
 from hippolyzer.lib.base.message.message_formatting import HumanMessageSerializer
-from hippolyzer.lib.base.message.msgtypes import PacketFlags
+from hippolyzer.lib.base.message.msgtypes import PacketFlags, MsgType
 from hippolyzer.lib.base.message.template_dict import DEFAULT_TEMPLATE_DICT
 from hippolyzer.lib.base.network.transport import Direction
 from hippolyzer.lib.proxy.message_filter import MetaFieldSpecifier, compile_filter, BaseFilterNode, MessageFilterNode, \
@@ -815,9 +816,40 @@ class LLUDPMessageLogEntry(AbstractMessageLogEntry):
         val['message'] = llsd.format_notation(self.message.to_dict(extended=True))
         return val
 
+    _COORD_CLASSES = {
+        MsgType.MVT_LLVector3: Vector3,
+        MsgType.MVT_LLVector3d: Vector3,
+        MsgType.MVT_LLVector4: Vector4,
+        MsgType.MVT_LLQuaternion: Quaternion,
+    }
+
+    @classmethod
+    def _restore_value_classes(cls, msg: Message):
+        # LLSD notation has no way to say that an array was a Vector3 or that binary was stringy bytes,
+        # so an imported message held lists / bytes / uuid.UUID where the logged one held our own classes,
+        # and filters like `Msg.Block.Var == (1, 2, 3)` or `Msg.Block.Var == 'text'` no longer matched it.
+        # Use the template to give the values the classes the deserializer would have given them.
+        template = DEFAULT_TEMPLATE_DICT.get_template_by_name(msg.name)
+        for block_name, blocks in msg.blocks.items():
+            tmpl_block = template.block_map.get(block_name) if template else None
+            for block in blocks:
+                for var_name, value in tuple(block.vars.items()):
+                    tmpl_var = tmpl_block.variable_map.get(var_name) if tmpl_block else None
+                    if type(value) is uuid.UUID:
+                        block.vars[var_name] = UUID(value)
+                    elif tmpl_var is None:
+                        continue
+                    elif isinstance(value, list) and tmpl_var.type in cls._COORD_CLASSES:
+                        block.vars[var_name] = cls._COORD_CLASSES[tmpl_var.type](*value)
+                    elif type(value) is bytes and tmpl_var.type in (MsgType.MVT_FIXED, MsgType.MVT_VARIABLE) \
+                            and not tmpl_var.probably_binary:
+                        block.vars[var_name] = JankStringyBytes(value)
+
     @classmethod
     def from_dict(cls, val: dict):
-        ev = cls(Message.from_dict(llsd.parse_notation(val['message'])), None, None)
+        message = Message.from_dict(llsd.parse_notation(val['message']))
+        cls._restore_value_classes(message)
+        ev = cls(message, None, None)
         ev.apply_dict(val)
         return ev
 
